@@ -1,6 +1,8 @@
 """Per-property configuration of the driver: workers, coverage floors, rule texts."""
 
-EXTRA_SETUP = []
+from checklib import c20stages
+
+EXTRA_SETUP = [c20stages.setup]
 
 COMMON_ASSUMPTIONS = [
     "verdict covers only the executions this run produced (generated machines, histories, clocks, RNG streams)",
@@ -130,10 +132,55 @@ PROPS = {
         "assumptions": COMMON_ASSUMPTIONS + ['no integration delays; traces are time-sorted; network delay <= 1 s', 'event times are compared as exact nanosecond offsets from the earliest trace event'],
         "stall": 120,
     },
+    "C12": {
+        "workers": ["c12"],
+        "rule": "the finite matrix (every numeric slot of a machine - fractions, transition probabilities in three vector shapes, every parameter of the 11 distribution families plus start/max in 6 placements - x every special value: NaN, infinities, signed zeros, subnormals, bounds and one ulp beyond each bound; plus structural shapes) is run completely on 5 paths, then random combinations of such values incl. byte-only shapes (present-but-empty transition vectors); every object is non-trivial; distinct by hash of the object",
+        "floors": None,
+        "exhaustive_key": "matrix_exhaustive",
+        "assumptions": COMMON_ASSUMPTIONS + [
+            "the well-formedness predicate is written from the property statement and the documented domains of rand_distr 0.4.3, in NaN-safe form; location parameters (Normal mean, SkewNormal location, LogNormal mu) and start/max are unconstrained",
+            "only soundness is demanded (accepted => well-formed, all paths agree); validation may reject well-formed objects (counted)",
+        ],
+    },
+    "C13": {
+        "workers": ["c13"],
+        "rule": "a case = one validated distribution (11 families at admitted parameter corners; start/max from {0, finite, NaN, +-inf, MAX}) sampled under a scripted RNG (prefix of 0-8 extreme words - all zero, all one, alternating, mixed - then a fair stream; thorough: 0-64) directly (3 samples), as counter value, or as timeout+duration+limit of an action inside a framework; non-trivial when the prefix is non-empty; distinct by hash of distribution and prefix",
+        "floors": None,
+        "stall": 8,
+        "stall_confirm": 16,
+        "assumptions": COMMON_ASSUMPTIONS + [
+            "a sample consuming more than 10^5 random words counts as not returning; loops that consume no words are detected by the heartbeat supervisor (8 s stall, confirmed in isolation for 16 s; the normal cost of a sample is microseconds)",
+            "+inf without a finite max is not a violation (consumers clamp; C04 checks that)",
+            "inputs for which a replica of rand_distr's inversion loop does not terminate within 5*10^6 iterations are skipped after one of them was executed for real and confirmed to hang (known finding)",
+        ],
+    },
+    "C11": {
+        "workers": ["c11"],
+        "rule": "a case = one valid generated machine (1-40 states, or 300-3500 states with random parameters so that the compressed form spans up to ~700 KiB) round-tripped through serialize/from_str and driven in lock-step with the original, 2-6 hostile strings derived from it (mutations at the string, zlib and bincode layers, wrong versions, random and non-ASCII text) and 3 strings for the legacy v1 parser (mutated corpus, field-by-field built payloads, random hex); peak heap of every from_str measured by a counting allocator; compression bombs (1 MiB+1 .. 256 MiB, thorough .. 4 GiB) once per run; non-trivial = every case with a valid machine within the size limit; distinct by hash of its string",
+        "floors": None,
+        "assumptions": COMMON_ASSUMPTIONS + [
+            "memory bound for the current format: 1 MiB + 3*65536*size_of::<State>() + 2*len(input), and for zero-filled bombs the peak beyond the decoded input must not vary by more than 64 KiB with the decompressed size",
+            "no memory claim is made (or tested) for the legacy v1 parser, as in the property",
+        ],
+    },
+    "C20": {
+        "workers": ["c20"],
+        "pre_stages": [c20stages.stage_cclient, c20stages.stage_asan, c20stages.stage_miri, c20stages.stage_valgrind_rust],
+        "rule": "a case (worker c20) = 0-4 deterministic machines + 1-40 event batches with arbitrary machine ids run through the extern C functions (output buffer between guard slots) and through a Rust Framework, compared field by field, followed by one injected argument fault and a start/stop allocation balance; the same sessions are replayed by a C client built from maybenot.h under ASan+UBSan, by the Rust harness under AddressSanitizer and under Miri (thorough: valgrind memcheck); non-trivial when at least one action was compared; distinct by hash of machines and batches",
+        "floors": None,
+        "technique": "runtime monitoring: differential oracle + Miri + AddressSanitizer/UBSan/LeakSanitizer (+ valgrind memcheck in thorough) on the unsafe FFI glue",
+        "assumptions": COMMON_ASSUMPTIONS + [
+            "deterministic machines only (the API seeds its RNG from the OS); blocking limits configured so that real time cannot matter",
+            "one fault at a time; the machine-string pointer and the pointer given to maybenot_stop are always valid (documented safety contract)",
+            "the staticlib for the C client is built from /repo's own manifest with the guard off",
+        ],
+    },
 }
 
 # Coverage floors (quick): a quarter of what the workload reaches on the unchanged tree; a run that
-# observes less is inconclusive. Thorough floors are ten times the quick ones.
+# observes less is inconclusive. Thorough floors are five times the quick ones, except for counts
+# that do not grow with the number of cases.
+NOSCALE = {"compression_bombs", "matrix_objects", "families_closed", "miri_sessions"}
 QUICK_FLOORS = {
     "C01": {
         "actions_returned": 600000,
@@ -364,10 +411,76 @@ QUICK_FLOORS = {
         "run_pairs_compared": 50000,
         "runs_with_explicit_pps": 20000,
         "runs_with_pps_above_u32": 10000
+    },
+    "C11": {
+        "hostile_bincode_level": 10000,
+        "hostile_non_ascii": 6000,
+        "hostile_random_ascii": 6000,
+        "hostile_string_level": 6000,
+        "hostile_strings_accepted": 1000,
+        "hostile_strings_reaching_the_bincode_layer": 10000,
+        "hostile_strings_rejected": 50000,
+        "hostile_wrong_version": 6000,
+        "hostile_zlib_level": 10000,
+        "round_trip_string_bytes": 100000000,
+        "round_trips": 10000,
+        "v1_strings": 30000,
+        "v1_strings_rejected": 20000,
+        "round_trips_with_compressed_form_over_32KiB": 300,
+        "round_trips_with_compressed_form_over_256KiB": 50,
+        "compression_bombs": 3
+    },
+    "C12": {
+        "matrix_objects": 1000,
+        "objects_accepted_by_all_paths": 6000,
+        "objects_rejected_by_all_paths": 90000
+    },
+    "C13": {
+        "consumer_counter_value": 10000,
+        "consumer_direct_sample": 100000,
+        "consumer_framework_timeout_duration_limit": 10000,
+        "samples_Beta": 10000,
+        "samples_Binomial": 10000,
+        "samples_Gamma": 10000,
+        "samples_Geometric": 10000,
+        "samples_LogNormal": 10000,
+        "samples_Normal": 10000,
+        "samples_Pareto": 10000,
+        "samples_Poisson": 10000,
+        "samples_SkewNormal": 10000,
+        "samples_Uniform": 9000,
+        "samples_Weibull": 10000,
+        "samples_fair_stream": 30000,
+        "samples_prefix_all_one": 20000,
+        "samples_prefix_all_zero": 20000,
+        "samples_prefix_alternating": 20000,
+        "samples_prefix_mixed_extremes": 20000,
+        "samples_returning_+inf_without_finite_max_(consumers_clamp)": 10000
+    },
+    "C20": {
+        "actions_blocking": 40000,
+        "actions_cancel": 40000,
+        "actions_compared_field_by_field": 100000,
+        "actions_padding": 30000,
+        "actions_timer": 40000,
+        "asan_batches": 100000,
+        "asan_sessions": 6000,
+        "batches_compared": 300000,
+        "batches_with_unknown_machine_ids": 70000,
+        "cclient_actions_compared_as_C_sees_them": 8000,
+        "cclient_batches": 10000,
+        "cclient_sessions": 1000,
+        "result_invalid_machine_string": 100,
+        "result_not_utf8": 100,
+        "result_null_pointer": 100,
+        "result_ok": 10000,
+        "result_start_framework": 100,
+        "start_stop_allocation_balances_checked": 10000,
+        "miri_sessions": 16
     }
 }
 
 for _pid, _spec in PROPS.items():
     if _spec.get("floors") is None:
         q = QUICK_FLOORS.get(_pid, {})
-        _spec["floors"] = {"quick": q, "thorough": {k: v * 10 for k, v in q.items()}}
+        _spec["floors"] = {"quick": q, "thorough": {k: v * (1 if k in NOSCALE else 5) for k, v in q.items()}}
